@@ -107,8 +107,9 @@ func (p *polling) onPollRequest(ctx *types.HttpContext) {
 	p.SetWritable(true)
 	p.Emit("ready")
 
-	// if we're still writable but had a pending close, trigger an empty send
-	if p.Writable() && p.shouldClose.Load() != nil {
+	// if we're still writable but had a pending close (or the transport closed
+	// while this request was being set up), trigger an empty send
+	if p.Writable() && (p.shouldClose.Load() != nil || p.ReadyState() == "closed") {
 		polling_log.Debug("triggering empty send to append close packet")
 		p.Send([]*packet.Packet{
 			{
@@ -246,15 +247,22 @@ func (p *polling) decodePayload(data types.BufferInterface) ([]*packet.Packet, e
 
 // Overrides onClose.
 func (p *polling) OnClose() {
+	p.releasePendingPoll()
+	p.Transport.OnClose()
+	// a poll request that arrived between the test above and the state change
+	// found the transport open: nothing else would ever answer it
+	p.releasePendingPoll()
+}
+
+// close pending poll request
+func (p *polling) releasePendingPoll() {
 	if p.Writable() {
-		// close pending poll request
 		p.Send([]*packet.Packet{
 			{
 				Type: packet.NOOP,
 			},
 		})
 	}
-	p.Transport.OnClose()
 }
 
 // Writes a packet payload.
